@@ -533,10 +533,7 @@ func registerStubs(e *Engine) {
 	// ---- os / time / context / misc environment ----
 	e.reg("os.Getenv", func(fr *frame, args []value) value { return "" })
 	e.reg("os.LookupEnv", func(fr *frame, args []value) value { return tuple{"", false} })
-	e.reg("time.Now", func(fr *frame, args []value) value { return zeroResult(fr.fn) })
-	e.reg("time.Since", func(fr *frame, args []value) value { return zeroResult(fr.fn) })
-	e.reg("(time.Time).Sub", func(fr *frame, args []value) value { return zeroResult(fr.fn) })
-	e.reg("(time.Time).IsZero", func(fr *frame, args []value) value { return true })
+	registerConcStubs(e)
 	e.reg("(time.Duration).String", func(fr *frame, args []value) value { return "0s" })
 	e.reg("(time.Duration).Seconds", func(fr *frame, args []value) value { return float64(0) })
 	registerContextStubs(e)
